@@ -92,6 +92,11 @@ CLAIMED["C20"] = dict(
     text="Exploration: quotations over text / XML-text / array ranges of every bound form and links to map entries are created inside hostile multi-replica histories and dereferenced on every replica that has integrated them after every step; the result must be exactly the currently visible elements between the boundary units (boundaries as the range named them), links must follow the entry's current value and yield nothing once it is removed, creating a quotation must leave the source unchanged, replicas must converge. The observer clause is monitored on the creating replica; its violations are recorded as known finding D23.",
     design="DESIGN.md section 3 C20")
 
+CLAIMED["C19"] = dict(
+    technique="runtime monitoring: source-level differential execution of the exported extern \"C\" functions (yffi/src/lib.rs compiled into the monitor) against a native twin and against the Rust API on the same Doc; event projection through C callbacks; thorough tier repeats the workload under AddressSanitizer",
+    text="Exploration: seeded programs of C API calls (documents, transactions with origins, text/array/map/XML incl. attributes, embeds, deltas, every input cell kind with non-ASCII strings, nested shared types, weak links, state vectors, v1/v2 diffs and update application, snapshots, sticky indexes, undo manager, observers) are executed exactly as C would execute them; after every call the C-driven document must equal a natively driven twin, every value read through output cells / iterators / event accessors must equal what the Rust API returns for the same document and the same event, and exchanges with a Rust-driven peer must converge. Functions not driven (listed in the evidence file as the complement of the per-function call counters) are not covered.",
+    design="DESIGN.md section 3 C19")
+
 NOT_YET = {}
 
 
